@@ -1,6 +1,7 @@
 import TssVerif.Core.Wire
 import TssVerif.Core.OpsCrypto
 import TssVerif.Core.Sign
+import TssVerif.Core.EngineTables
 /-! Line-protocol ops for signing arithmetic. -/
 namespace TssVerif.OpsSign
 open TssVerif Wire OpsCrypto Sign
@@ -37,6 +38,13 @@ def run (op : String) (args : List String) : Option String :=
       some ((ecdsaFromTranscript Secp256k1.curve pub thetas gammas ss m fullLen).render fun d =>
         rBytes d.r ++ " " ++ rBytes d.s ++ " " ++ rBytes d.signature ++ " " ++ toString d.recid ++ " " ++ rBytes d.m)
     | _, _, _, _, _, _ => none
+  | "engine_trace", [proto, n, self, evs] =>
+    match Engine.findProto proto, pDec n, pDec self with
+    | some p, some n, some self =>
+      some (match Engine.runTrace p n self (evs.splitOn ";") with
+        | some l => ";".intercalate l
+        | none => "bad-trace")
+    | _, _, _ => none
   | "ed25519_verify", [pub, msg, sig] =>
     match pBytes pub, pBytes msg, pBytes sig with
     | some pub, some msg, some sig => some (rBool (Ed.verify pub msg sig))
